@@ -3,7 +3,7 @@
   shared by Lemmas/SumRule.lean and Lemmas/Coset.lean.
 -/
 import SymfcModel.Lemmas.Cell
-import SymfcModel.Lemmas.Cutoff
+import SymfcModel.Lemmas.CutoffBasic
 namespace Symfc
 
 theorem length_unflat (N k x : Nat) : (unflat N k x).length = k := by
